@@ -64,7 +64,12 @@ def variants(base):
             if d.get("insts"):
                 ref = d["insts"][0]["ref"]
                 d["insts"] = d["insts"] + [{"name": "blk[0].u", "ref": ref}, {"name": "blk(0).u", "ref": ref},
-                                           {"name": "Stage/ff", "ref": ref}, {"name": "stage.ff", "ref": ref}]
+                                           {"name": "Stage/ff", "ref": ref}, {"name": "stage.ff", "ref": ref},
+                                           {"name": "k.n", "ref": ref}]    # the same odd name in every cell ...
+                if v.get("top") and d["name"] == v["top"][1]:
+                    # ... next to its sanitised form in the last one, listed after it and in front of it
+                    d["insts"] = d["insts"] + [{"name": "k_n", "ref": ref}, {"name": "m_n", "ref": ref}]
+                d["insts"] = d["insts"] + [{"name": "m.n", "ref": ref}]
             if d.get("nets") is not None and d.get("insts"):
                 d["nets"] = d["nets"] + [{"name": "n$1", "bits": [[]]}, {"name": "n#1", "bits": [[]]},
                                          {"name": "Bus.x", "bits": [[]]}, {"name": "bus:x", "bits": [[]]}]
@@ -76,6 +81,20 @@ def variants(base):
     v = copy.deepcopy(base)
     v["libs"] = [{"name": "empty_first", "defs": []}] + v["libs"] + [{"name": "empty_last", "defs": []}]
     out.append(("empty-libraries", v))
+    # names and string values containing %<digits>% (an EDIF character escape, which this reader and writer take literally)
+    v = copy.deepcopy(base)
+    for lib in v["libs"]:
+        for d in lib["defs"]:
+            for x in d.get("insts", ()):
+                x["name"] = x["name"] + "_%50%_s"
+                if isinstance(x.get("props"), list):
+                    x["props"] = x["props"] + [["PCT", "%34%"]]
+            for net in d.get("nets", ()):
+                for b in net["bits"]:
+                    for e in b:
+                        if e[0] == "I":
+                            e[1] = e[1] + "_%50%_s"
+    out.append(("percent-escapes", v))
     # names that are not legal EDIF identifiers because of one character, at each position
     for tag, f in (("illegal-last-char", lambda n: n + "$"), ("illegal-first-char", lambda n: "$" + n),
                    ("illegal-middle-char", lambda n: n[:1] + "$" + n[1:])):
@@ -227,6 +246,16 @@ def worker(case):
                 d2 = lib.definitions[0].clone()
                 d2.name = lib.definitions[0].name + "_copy"
                 lib.add_definition(d2)
+    if kind == "api" and case[2] == "port-reshaped-after-export":
+        # exported once; then the pins of every array port are reversed (instances keep their connections on the
+        # same pins, which now sit at other positions) and the netlist is exported again
+        with core.quiet():
+            s.compose(n, os.path.join(scratch, "first_%d.edf" % os.getpid()))
+        for lib in n.libraries:
+            for d in lib.definitions:
+                for p_ in d.ports:
+                    if len(p_.pins) > 1:
+                        p_.pins = list(reversed(list(p_.pins)))
     if kind == "api" and case[2] == "cell-appended-after-export":
         # exported once; then a new cell is created in the top cell's own library (it lands *after* its user in
         # that library) and instantiated by the top cell
@@ -302,6 +331,7 @@ def cases(tier):
         out.append(("api", base, "library-appended-after-export", "asc"))
         out.append(("api", base, "copies-added-after-export", "asc"))
         out.append(("api", base, "cell-appended-after-export", "asc"))
+        out.append(("api", base, "port-reshaped-after-export", "asc"))
     for desc in design.family_hier(tier, variants=("plain", "two-libraries", "dangling-nets")):
         if tier == "thorough" or desc[0] in ("K1-chain2", "K8-bus", "K4-wire-only") or sum(desc[1]) % 11 == 0:
             out.append(("hier", desc, "asc"))
